@@ -11,10 +11,13 @@ ops (payload['op']):
 import io, os, sys
 import fw
 
-HEADER_KEYS = ('Is', 'RN', 'Fc', 'La', 'Ti', 'CX', 'CY', 'RP', 'Fi', 'CN', 'aa', 'aA', 'aI', 'LY', 'RR')
+HEADER_KEYS = ('Is', 'RN', 'Fc', 'La', 'Ti', 'CX', 'CY', 'RP', 'Fi', 'CN', 'aa', 'aA', 'aI', 'LY')
 HDR = '@NS500414:628:H7YVNBGXC:1:11101:15963:1046 %d:N:0:GTGAAA'
 N_TRACE = 120
 SYNTH = {'10x_3M-february-2018': 16}
+# the DamID arm of DamID2andT_3u4b3u6b looks its barcode up in an alias no file ships for: give it the
+# transcriptome barcodes extended by two bases so that the both-arms branch is exercised
+SYNTH_EXT = {'DamID2_scattered_10bp': ('CS2_scattered_8bp', 48)}
 BASE = (0x4E00, 0x6000, 0x7000)
 
 
@@ -54,6 +57,11 @@ def load():
             if not wl:
                 for i in range(24):
                     bp.addBarcode(alias, ''.join(rnd.choice('ACGT') for _ in range(blen)), i + 1)
+                bp.expand(1, alias=alias)
+        for alias, (src, n) in SYNTH_EXT.items():
+            if not bp[alias]:
+                for i, k in enumerate(sorted(bp[src] or {})[:n]):
+                    bp.addBarcode(alias, k + rnd.choice('ACGT') + rnd.choice('ACGT'), i + 1)
                 bp.expand(1, alias=alias)
         loader = DemultiplexingStrategyLoader(barcodeParser=bp, indexParser=ip, indexFileAlias=None)
     return loader, bp
@@ -204,37 +212,193 @@ def trace(s):
     return w, traced
 
 
-def dump_layouts(loader):
+def dump_single(s, k):
+    d = {'name': s.shortName, 'cls': type(s).__name__, 'kind': k, 'long': getattr(s, 'longName', ''),
+         'desc': getattr(s, 'description', ''), 'alias': getattr(s, 'barcodeFileAlias', None)}
+    if k in (1, 4):
+        d['args'] = {a: optint(getattr(s, a)) for a in
+                     ('umiRead', 'umiStart', 'umiLength', 'barcodeRead', 'barcodeStart', 'barcodeLength',
+                      'random_primer_read', 'random_primer_length')}
+        d['args']['random_primer_end'] = bool(s.random_primer_end)
+        d['capture'] = [sl(x) for x in s.sequenceCapture]
+        d['rp_slice'] = sl(s.random_primer_slice) if hasattr(s, 'random_primer_slice') else None
+    if k == 4:
+        d['rb'] = {a: optint(getattr(s, a)) for a in ('enzymeRead', 'enzymeStart', 'enzymeLength',
+                                                      'ispcrRead', 'ispcrStart', 'ispcrLength')}
+    if k == 2:
+        d['bc_slices'] = [[sl(x) for x in per] for per in s.barcode_slices]
+        d['umi_slices'] = [[sl(x) for x in per] for per in s.umi_slices]
+        d['cap_slices'] = [sl(x) for x in s.capture_slices]
+        d['rp_read'] = optint(s.random_primer_read)
+        d['rp_slice'] = sl(s.random_primer_slice) if hasattr(s, 'random_primer_slice') else None
+    if k in (1, 2, 4):
+        d['wrapper'], d['traced'] = trace(s)
+    return d
+
+
+def base_kind(s):
+    from singlecellmultiomics.modularDemultiplexer import baseDemultiplexMethods as B
+    if isinstance(s, B.ScatteredUmiBarcodeDemuxMethod):
+        return 2
+    if isinstance(s, B.UmiBarcodeDemuxMethod):
+        return 1
+    raise ValueError('sub-demultiplexer %r is neither contiguous nor scattered' % (s,))
+
+
+# ---- constants of the composite strategies, from the source (AST) and the live objects; fail closed
+def method_ast(cls, name):
+    import ast, inspect, textwrap
+    fn = cls.__dict__.get(name)
+    if fn is None:
+        raise ValueError('%s does not define %s itself' % (cls.__name__, name))
+    return ast.parse(textwrap.dedent(inspect.getsource(fn)))
+
+
+def ordered(tree):
+    import ast
+    nodes = [n for n in ast.walk(tree) if hasattr(n, 'lineno')]
+    return sorted(nodes, key=lambda n: (n.lineno, n.col_offset))
+
+
+def in_literals(tree):
+    """[(literal, window)] for every test  'LITERAL' in <expr>  /  <expr>[:n], in source order"""
+    import ast
+    out = []
+    for n in ordered(tree):
+        if isinstance(n, ast.Compare) and len(n.ops) == 1 and isinstance(n.ops[0], (ast.In, ast.NotIn)) \
+                and isinstance(n.left, ast.Constant) and isinstance(n.left.value, str):
+            c = n.comparators[0]
+            window = None
+            if isinstance(c, ast.Subscript):
+                sl_ = c.slice
+                if isinstance(sl_, ast.Slice) and sl_.lower is None and sl_.step is None \
+                        and isinstance(sl_.upper, ast.Constant) and isinstance(sl_.upper.value, int) and sl_.upper.value >= 0:
+                    window = sl_.upper.value
+                else:
+                    raise ValueError('literal %r is searched in a slice the translator does not know' % n.left.value)
+            out.append([n.left.value, window])
+    return out
+
+
+def tag_assigns(tree, key):
+    """string constants assigned to  <x>.tags[key], in source order"""
+    import ast
+    out = []
+    for n in ordered(tree):
+        if isinstance(n, ast.Assign) and len(n.targets) == 1 and isinstance(n.targets[0], ast.Subscript):
+            t = n.targets[0]
+            if isinstance(t.value, ast.Attribute) and t.value.attr == 'tags' and isinstance(t.slice, ast.Constant) and t.slice.value == key:
+                if not (isinstance(n.value, ast.Constant) and isinstance(n.value.value, str)):
+                    raise ValueError('tags[%r] is assigned something that is not a string literal' % key)
+                out.append(n.value.value)
+    return out
+
+
+def dump_comp(s, bp):
+    import ast, re as _re
+    from singlecellmultiomics.modularDemultiplexer import baseDemultiplexMethods as B
+    cls = type(s)
+    subs = {a: v for a, v in vars(s).items() if isinstance(v, (B.UmiBarcodeDemuxMethod, B.ScatteredUmiBarcodeDemuxMethod))}
+    if hasattr(s, 'r2_trimmer') and hasattr(s, 'id_to_cs2_barcode'):
+        # transcriptome + ChIC on one UmiBarcode layout (TCHIC)
+        tree = method_ast(cls, 'demultiplex')
+        lits = in_literals(tree)
+        polyT = sorted(set(l for l, w in lits if set(l) == {'T'}))
+        if len(polyT) != 1 or any(w is not None for l, w in lits if set(l) == {'T'}):
+            raise ValueError('poly-T literal of %s not recognised: %r' % (cls.__name__, lits))
+        t7 = [[l, w] for l, w in lits if set(l) != {'T'}]
+        m = _re.fullmatch(r'\[([A-Za-z]+)\]\*\$', s.r2_trimmer.pattern)
+        if not m or s.r2_trimmer.flags & ~_re.UNICODE:
+            raise ValueError('read-2 trimmer pattern %r not recognised' % s.r2_trimmer.pattern)
+        ttree = method_ast(cls, 'trim_r2')
+        drops, cuts = [], []
+        for n in ordered(ttree):
+            if isinstance(n, ast.Subscript) and isinstance(n.slice, ast.Slice) and n.slice.lower is None \
+                    and isinstance(n.slice.upper, ast.UnaryOp) and isinstance(n.slice.upper.op, ast.USub) \
+                    and isinstance(n.slice.upper.operand, ast.Constant):
+                drops.append(n.slice.upper.operand.value)
+            if isinstance(n, ast.Call) and isinstance(n.func, ast.Attribute) and n.func.attr == 'find':
+                a = n.args[0]
+                if not (isinstance(a, ast.Attribute) and isinstance(a.value, ast.Name) and a.value.id == 'self'):
+                    raise ValueError('trim_r2 searches something that is not an attribute of self')
+                cuts.append(getattr(s, a.attr))
+        if len(drops) != 1 or not isinstance(drops[0], int):
+            raise ValueError('trim_r2: expected exactly one [:-k] slice, found %r' % drops)
+        # expected bleed-through barcode = whitelist barcode of the same index + suffix
+        found = None
+        for alias in sorted(bp.barcodes.keys() | bp.pending_files.keys()):
+            wl = bp[alias] or {}
+            if len(wl) != len(s.id_to_cs2_barcode) or not wl:
+                continue
+            k0, v0 = next(iter(wl.items()))
+            full = s.id_to_cs2_barcode.get(v0)
+            if full is None or not full.startswith(k0):
+                continue
+            suf = full[len(k0):]
+            if all(s.id_to_cs2_barcode.get(v) == k + suf for k, v in wl.items()):
+                found = (alias, suf)
+                break
+        if not found:
+            raise ValueError('id_to_cs2_barcode is not whitelist + suffix')
+        dts = tag_assigns(tree, 'dt')
+        # 'dt' also comes from the ud dict literal
+        udt = [v.value for n in ordered(tree) if isinstance(n, ast.Dict)
+               for k, v in zip(n.keys, n.values) if isinstance(k, ast.Constant) and k.value == 'dt' and isinstance(v, ast.Constant)]
+        rr = tag_assigns(tree, 'RR')
+        if len(udt) != 1 or len(dts) != 2 or len(rr) != 1:
+            raise ValueError('dt / RR assignments of %s not recognised: %r %r %r' % (cls.__name__, udt, dts, rr))
+        return {'type': 'tchic', 'self': dump_single(s, 1), 'cuts': cuts, 'tx_umi_len': optint(s.tx_umi_len),
+                'trim_chars': m.group(1), 'trim_drop': drops[0], 'polyT': polyT[0], 't7': t7,
+                'cs2_alias': found[0], 'cs2_suffix': found[1], 'dt': [udt[0], dts[0], dts[1]], 'rr': rr[0]}
+    if len(subs) == 1 and 'chic_demux' in subs:
+        tree = method_ast(cls, 'demultiplex')
+        lits = in_literals(tree)
+        if not lits or len(set(l for l, w in lits)) != 1 or any(w is not None for l, w in lits):
+            raise ValueError('oligo literal of %s not recognised: %r' % (cls.__name__, lits))
+        subc = [n.right.value for n in ordered(tree) if isinstance(n, ast.BinOp) and isinstance(n.op, ast.Sub)
+                and isinstance(n.right, ast.Constant) and isinstance(n.right.value, int)]
+        mx = tag_assigns(tree, 'MX')
+        if len(subc) != 1 or len(mx) != 1:
+            raise ValueError('umi length / MX of %s not recognised: %r %r' % (cls.__name__, subc, mx))
+        arm = subs['chic_demux']
+        return {'type': 'chictv', 'arm': dump_single(arm, base_kind(arm)), 'oligo': lits[0][0], 'umi_len': subc[0], 'mx': mx[0]}
+    if set(subs) == {'transcriptome_demux', 'damid_demux'}:
+        tree = method_ast(cls, 'demultiplex')
+        prune = [n.comparators[0].value for n in ordered(tree) if isinstance(n, ast.Compare) and len(n.ops) == 1
+                 and isinstance(n.ops[0], ast.NotEq) and isinstance(n.comparators[0], ast.Constant)
+                 and isinstance(n.comparators[0].value, str)]
+        merge = any(isinstance(n, ast.Call) and isinstance(n.func, ast.Attribute) and n.func.attr == 'update' for n in ast.walk(tree))
+        dts = tag_assigns(tree, 'dt')
+        if len(prune) != 1 or len(prune[0]) != 1 or len(dts) != (2 if merge else 3):
+            raise ValueError('prune character / dt assignments of %s not recognised: %r %r' % (cls.__name__, prune, dts))
+        a, b = subs['damid_demux'], subs['transcriptome_demux']
+        return {'type': 'dual', 'damid': dump_single(a, base_kind(a)), 'tx': dump_single(b, base_kind(b)), 'merge': merge,
+                'dt_both': None if merge else dts[0], 'dt_tx': dts[-2], 'dt_damid': dts[-1], 'prune': prune[0]}
+    raise ValueError('composite strategy %s has a shape the translator does not know' % cls.__name__)
+
+
+def dump_layouts(loader, bp=None):
     from singlecellmultiomics.modularDemultiplexer import baseDemultiplexMethods as B
     out = []
     for s in loader.demultiplexingStrategies:
         k = kind_of(s)
-        d = {'name': s.shortName, 'cls': type(s).__name__, 'kind': k, 'long': getattr(s, 'longName', ''),
-             'desc': getattr(s, 'description', ''), 'alias': getattr(s, 'barcodeFileAlias', None)}
-        if k in (1, 4):
-            d['args'] = {a: optint(getattr(s, a)) for a in
-                         ('umiRead', 'umiStart', 'umiLength', 'barcodeRead', 'barcodeStart', 'barcodeLength',
-                          'random_primer_read', 'random_primer_length')}
-            d['args']['random_primer_end'] = bool(s.random_primer_end)
-            d['capture'] = [sl(x) for x in s.sequenceCapture]
-            d['rp_slice'] = sl(s.random_primer_slice) if hasattr(s, 'random_primer_slice') else None
-        if k == 4:
-            d['rb'] = {a: optint(getattr(s, a)) for a in ('enzymeRead', 'enzymeStart', 'enzymeLength',
-                                                          'ispcrRead', 'ispcrStart', 'ispcrLength')}
-        if k == 2:
-            d['bc_slices'] = [[sl(x) for x in per] for per in s.barcode_slices]
-            d['umi_slices'] = [[sl(x) for x in per] for per in s.umi_slices]
-            d['cap_slices'] = [sl(x) for x in s.capture_slices]
-            d['rp_read'] = optint(s.random_primer_read)
-            d['rp_slice'] = sl(s.random_primer_slice) if hasattr(s, 'random_primer_slice') else None
+        d = dump_single(s, k)
         if k == 3:
             d['subs'] = {a: {'name': v.shortName, 'alias': getattr(v, 'barcodeFileAlias', None)}
                          for a, v in vars(s).items()
                          if isinstance(v, (B.UmiBarcodeDemuxMethod, B.ScatteredUmiBarcodeDemuxMethod))}
-        if k in (1, 2, 4):
-            d['wrapper'], d['traced'] = trace(s)
+            try:
+                d['comp'] = dump_comp(s, bp)
+            except BaseException as e:          # fail closed for THIS strategy only: no Coq definition is generated
+                d['comp'] = None
+                d['comp_error'] = '%s: %s' % (type(e).__name__, e)
         out.append(d)
     return out
+
+
+def dump_tables():
+    from singlecellmultiomics.utils import sequtils
+    return {'complement': sorted([int(k), int(v)] for k, v in sequtils.complement_translate.items())}
 
 
 def handler(p):
@@ -245,7 +409,7 @@ def handler(p):
         by_name.setdefault(s.shortName, s)
     if op == 'layouts':
         try:
-            lay = dump_layouts(loader)
+            lay = dump_layouts(loader, bp)
             aliases = set()
             for d in lay:
                 if d.get('alias'):
@@ -261,7 +425,7 @@ def handler(p):
                     wls[a] = {k: wl[k] for k in sorted(wl)} if wl else {}
                 except BaseException:
                     wls[a] = {}
-            return {'layouts': lay, 'whitelists': wls}
+            return {'layouts': lay, 'whitelists': wls, 'tables': dump_tables()}
         except BaseException as e:
             return {'error': '%s: %s' % (type(e).__name__, e)}
     if op == 'run':
